@@ -35,7 +35,8 @@ ASSUMPTIONS = [
     "leaves open are discarded and counted",
 ]
 MUTANTS = ["break-two-loops", "continue-is-break", "while-test-once",
-           "if-first-branch", "insertion-order", "filter-ignored"]
+           "if-first-branch", "insertion-order", "filter-ignored",
+           "value-before-filter"]
 
 
 def outcome_of(src, budget=20):
